@@ -4,7 +4,9 @@ import (
 	"context"
 	"errors"
 	"fmt"
+	"runtime"
 	"sync"
+	"time"
 	"sync/atomic"
 	"testing"
 
@@ -269,6 +271,15 @@ func runC15Conc(t *testing.T, c ConcUpdaterCase) (*h.Violation, h.Info) {
 	for i := 0; i < c.Updaters; i++ {
 		u, err := setec.NewUpdater(context.Background(), st, "w", func(b []byte) (*cval, error) {
 			v := &cval{from: string(b)}
+			// a builder that takes a little while, so that installs and other Get callers can overlap it
+			if n := slow.Add(1); n%3 != 0 {
+				for y := 0; y < int(n%7)*3; y++ {
+					runtime.Gosched()
+				}
+				if n%5 == 0 {
+					time.Sleep(50 * time.Microsecond)
+				}
+			}
 			mu.Lock()
 			all = append(all, v)
 			mu.Unlock()
@@ -361,7 +372,7 @@ var c15conc = &h.Campaign[ConcUpdaterCase]{
 	Key: func(c ConcUpdaterCase) any { return fmt.Sprintf("%d/%d/%d/%d", c.Getters, c.Installs, c.Updaters, nonce.Add(1)) },
 }
 
-var nonce atomic.Int64
+var nonce, slow atomic.Int64
 
 func init() { c15.Register(); c15conc.Register() }
 
